@@ -652,7 +652,7 @@ def bodyProbe (go : Call → St → St × Ret) (srvId : Nat) (key : Nat) (s : St
       if pv.id == srvId then (s, .ok) else
       let s := s.modServer pv.id fun v => { v with probePending := true }
       let (s, _) := go (.sendNolock (some pv.id) true true
-        { name := q.name, qtype := q.qtype, qclass := q.qclass, rd := q.rd, edns := q.edns } .probe []) s
+        { name := q.name, qtype := q.qtype, qclass := q.qclass, rd := q.rd, edns := q.edns } (.probe pv.id) []) s
       (s, .ok)
 
 /-- `flush` with the recursive calls abstracted as `go` -/
@@ -742,7 +742,10 @@ def bodyEndQuery (go : Call → St → St × Ret) (srv : Option Nat) (key : Nat)
 /-- `callback` with the recursive calls abstracted as `go` -/
 def bodyCallback (go : Call → St → St × Ret) (owner : Owner) (react : List Nat) (st : Status) (timeouts : Nat) (rec : Option Reply) (s : St) : St × Ret :=
   match owner with
-  | .probe => (s, .ok)
+  | .probe id =>
+    -- server_probe_cb(arg = the probed server): whichever way the probe query ends (end_query, the cancel / destroy
+    -- walk, an early failure inside ares_send_nolock), the probe episode of that server is over
+    (s.modServer id fun v => { v with probePending := false }, .ok)
   | .client id =>
     -- completion callback of a compound request (ares_query_dnsrec_cb, search_callback, …):
     -- the pure client logic decides what happens next
